@@ -454,7 +454,7 @@ def model_term(c):
     op = c['op']
     if op == 'slot':
         rs = [int(x) for x in c['rewards']]
-        t = 'let rs := %s in (run_slotF %s rs %s' % (blist(rs), c['prior'], nat(c['stride']))
+        t = 'let rs := %s in (run_slotF %s rs %s' % (blist(rs), c['prior'], nat(mstride(c)))
         t += ', run_samplesF %s rs [%s]' % (c['prior'], '; '.join('(%s, %s)' % (nat(k), g) for k, g in c['samples']))
         if c.get('exact'):
             t += ', [run_slot %s %s])' % (dyt(fr(c['prior'])), dylist(fr(x) for x in rs))
@@ -485,6 +485,13 @@ def model_term(c):
     return None
 
 
+def mstride(c):
+    """the model reports fewer states than the harness (printing numbers is the expensive part of a Coq evaluation):
+       a multiple of the harness stride giving at most ~4 states; the last state depends on the whole history"""
+    n, st = len(c['rewards']), c['stride']
+    return st * max(1, -(-(n // st + 1) // 3))
+
+
 def reward_exactish(c):
     for st in c['steps']:
         for key in ('new', 'init', 'best'):
@@ -509,11 +516,17 @@ def compare(c, impl, model):
         return 'implementation panicked: %s' % impl['panic']
     if op == 'slot':
         ftrace, fsamples, qres = model
-        got = [[nanmap(x) for x in st[:4]] + [st[4]] for st in impl['trace']]
+        n, ms = len(c['rewards']), mstride(c)
+        hidx = [k for k in range(n) if k % c['stride'] == 0] + [n]
+        midx = [k for k in range(n) if k % ms == 0] + [n]
+        at = {k: st for k, st in zip(hidx, impl['trace'])}
+        if len(impl['trace']) != len(hidx):
+            return 'harness trace has %d states, expected %d' % (len(impl['trace']), len(hidx))
+        got = [[nanmap(x) for x in at[k][:4]] + [at[k][4]] for k in midx]
         if got != [list(x) for x in ftrace]:
             for k, (a, b) in enumerate(zip(got, ftrace)):
                 if a != list(b):
-                    return 'slot state #%d (stride %d): impl %s float-twin %s' % (k, c['stride'], a, list(b))
+                    return 'slot state after %d updates: impl %s float-twin %s' % (midx[k], a, list(b))
             return 'trace lengths differ: impl %d twin %d' % (len(got), len(ftrace))
         gs = [[nanmap(x) for x in s['args']] for s in impl['samples']]
         if gs != [list(x) for x in fsamples]:
